@@ -48,3 +48,23 @@ func vIte[T any](c bool, a, b T) T {
 
 // vTrig marks its argument as an instantiation trigger of a lemma.
 func vTrig[T any](x T) bool { return true }
+
+// vLogStr is the ghost log NAME (a sequence of strings appended to by the `effect NAME expr`
+// clauses of external functions). Not executable; inside old(...) it denotes the log on entry.
+func vLogStr(name string) []string    { panic("verif: ghost log is not executable") }
+func vLogStrOld(name string) []string { panic("verif: ghost log is not executable") }
+
+// vCat concatenates two slices (value semantics); vSeqEq compares two slices element-wise.
+func vCat[T any](a, b []T) []T { return append(append([]T{}, a...), b...) }
+
+func vSeqEq[T comparable](a, b []T) bool {
+	if len(a) != len(b) {
+		return false
+	}
+	for i := range a {
+		if a[i] != b[i] {
+			return false
+		}
+	}
+	return true
+}
